@@ -9,14 +9,17 @@ prop("C08", pkg="c08",
           "and on EACH of these encodings the truncation family again (cut exactly before the inserted field, <= 32 cuts inside it, the cut exactly after it, the cut that "
           "drops only the final STOP - through Unmarshal and a Decoder - and every proper prefix for each sixth insertion: plain io.EOF only for the empty input), the trailing "
           "bytes, every required field removed in turn, and every field (and non-empty container element type) replaced by another wire type under strict mode; "
-          "or (10%) 1-12 random Reader method calls on random bytes. Thorough tier only: a native go fuzzing campaign FuzzThriftDecode(data, sel, proto) of 90 s on 16 "
+          "or (10%) 1-12 random Reader method calls on random bytes; or (3%) a 'bigcount' case: a list (of bool, i8, i16, i32, i64, double, string or struct), set or map (keys i16/i32/i64/"
+          "string) that REALLY holds 1025, 1100, 2048, 2049 or 5000 elements - more than the 1024 the decoder allocates up front - at the top level or nested in a struct, a "
+          "pointer-to struct, a list or a map, binary and compact, whose announced count is then inflated to N+1, 4N, 1000N, 2^26 and 2^31-1 (also on an encoding cut in the "
+          "middle of the elements): each decode must be rejected and is measured on its own against the bytes available. Thorough tier only: a native go fuzzing campaign FuzzThriftDecode(data, sel, proto) of 90 s on 16 "
           "workers over 20 static target types (all scalar kinds, nested lists/sets/maps, nested and pointer-to structs, the recursive corpus type, embedding chains 1-3 "
           "levels deep, unions incl. as list/map elements, required/optional/enum fields, id ranges beyond 64 and up to 32767, 70 fields) x 3 protocols, seeded with ~390 "
           "inputs (valid encodings of two values per target and protocol, their truncations, hostile sizes -1 / -2^31 / 2^24 / 2^31-1, type bytes 0 and 13..16, ids 0, -1, "
           "32767), with the clauses that apply to arbitrary bytes as in-process oracle (no panic/fault under recover + SetPanicOnFault, TotalAlloc delta <= 64 MiB for "
           "inputs <= 4 KiB, and for accepted inputs: + trailing byte => error, + an undeclared field before the final STOP => same value); the seed corpus is also run in "
           "both tiers (TestFuzzSeeds). All library calls run in a supervised worker process under RLIMIT_AS (16 GiB from the driver, "
-          "4 GiB self-imposed in the worker); allocation is the runtime.MemStats.TotalAlloc delta, measured per probe group and per call when a group exceeds 64 MiB. "
+          "4 GiB self-imposed in the worker); allocation is the runtime.MemStats.TotalAlloc delta, measured per probe group and per call when a group exceeds 64 MiB; the bound per call is 64 MiB for inputs up to 4 KiB and max(64 MiB, 1024 x input length) above. "
           "All six defects found (KF-C08-001..006) are repaired in /repo and listed as fixed, so every probe above is generated and their witnesses run as regression "
           "cases; the avoidance of probes that would only re-trigger a defect (negative counts, counts 2^24..2^31-1, binary cut offsets inside fixed-width items) and the "
           "exclusion of matching failures are kept in the code but are active only for an entry whose status is 'known' (then "
